@@ -386,8 +386,11 @@ func init() {
 		if bitSize == 0 {
 			bitSize = 64
 		}
-		if base != 10 || bitSize < 1 || bitSize > 64 {
+		if bitSize < 1 || bitSize > 64 {
 			abort("UNSUPPORTED", "ParseUint base %d bits %d", base, bitSize)
+		}
+		if base != 10 {
+			return ex.parseIntStubU(c, 0, true) // bases 0, 2, 8, 16: the shared prefix/base logic, without a sign
 		}
 		val, synOK, rangeOK := parseUintTerm(s.B)
 		maxV := ^uint64(0)
@@ -776,8 +779,44 @@ func init() {
 	}
 }
 
+// byteDecider answers yes/no questions about an input byte: by the path facts, else by two feasibility queries;
+// a byte that can go both ways is outside what the strconv prefix logic models.
+type byteDecider struct {
+	ex *Exec
+	c  *CallCtx
+}
+
+func (j *byteDecider) is(p *term.Term, what string) bool {
+	switch j.ex.decideCond(j.c.St, p) {
+	case 1:
+		return true
+	case 0:
+		return false
+	}
+	if !j.ex.feasibleSt(j.c.St, p, true) {
+		return false
+	}
+	if !j.ex.feasibleSt(j.c.St, term.Not(p), true) {
+		return true
+	}
+	abort("UNSUPPORTED", "strconv model: cannot decide whether an input byte is %s at %s", what, j.ex.posOf(j.c.Site))
+	return false
+}
+
+func (j *byteDecider) eq(b *term.Term, c byte) bool {
+	return j.is(term.Eq(b, term.Const(8, uint64(c))), "'"+string(c)+"'")
+}
+
 // parseIntStub models strconv.ParseInt; lead is 0 (unknown), 1 (first digit is '0') or 2 (it is not).
 func (ex *Exec) parseIntStub(c *CallCtx, lead int) []*callResult {
+	return ex.parseIntStubU(c, lead, false)
+}
+
+func (ex *Exec) parseIntStubU(c *CallCtx, lead int, unsigned bool) []*callResult {
+	fname := "ParseInt"
+	if unsigned {
+		fname = "ParseUint"
+	}
 	s := c.Args[0].(StringV)
 	base, ok1 := ex.concreteInt(c.St, c.Args[1].(*term.Term), true)
 	bitSize, ok2 := ex.concreteInt(c.St, c.Args[2].(*term.Term), true)
@@ -788,16 +827,18 @@ func (ex *Exec) parseIntStub(c *CallCtx, lead int) []*callResult {
 		bitSize = 64
 	}
 	if len(s.B) == 0 {
-		return c.ret(TupleV{term.Const(64, 0), ex.numError(c.St, "ParseInt", s, "ErrSyntax")})
+		return c.ret(TupleV{term.Const(64, 0), ex.numError(c.St, fname, s, "ErrSyntax")})
 	}
-	j := &jsonCtx{ex, c} // byte predicates decided under the path facts
+	j := &byteDecider{ex, c} // byte predicates decided under the path facts, then by the solver
 	digits := s.B
 	neg := false
-	if j.eq(digits[0], '+') {
-		digits = digits[1:]
-	} else if j.eq(digits[0], '-') {
-		neg = true
-		digits = digits[1:]
+	if !unsigned {
+		if j.eq(digits[0], '+') {
+			digits = digits[1:]
+		} else if j.eq(digits[0], '-') {
+			neg = true
+			digits = digits[1:]
+		}
 	}
 	b := uint64(base)
 	if base == 0 {
@@ -816,7 +857,7 @@ func (ex *Exec) parseIntStub(c *CallCtx, lead int) []*callResult {
 					for i, st := range ex.splitStates(c.St, []*term.Term{z, term.Not(z)}, false) {
 						if st != nil {
 							sub := &CallCtx{St: st, Fr: c.Fr, Args: c.Args, Site: c.Site, Fn: c.Fn, Name: c.Name}
-							out = append(out, ex.parseIntStub(sub, i+1)...)
+							out = append(out, ex.parseIntStubU(sub, i+1, unsigned)...)
 						}
 					}
 					return out
@@ -845,6 +886,14 @@ func (ex *Exec) parseIntStub(c *CallCtx, lead int) []*callResult {
 		abort("UNSUPPORTED", "ParseInt base %d", b)
 	}
 	val, synOK, rangeOK := parseDigitsBase(digits, b)
+	if unsigned {
+		maxU := ^uint64(0)
+		if bitSize < 64 {
+			maxU = uint64(1)<<uint(bitSize) - 1
+			rangeOK = term.And(rangeOK, term.Ule(val, term.Const(64, maxU)))
+		}
+		return ex.parseResults(c, fname, s, val, synOK, rangeOK, term.Const(64, maxU))
+	}
 	lim := uint64(1) << uint(bitSize-1)
 	var res, maxV *term.Term
 	if neg {
